@@ -354,3 +354,66 @@ func c08UfsSlowHost(held string, dotu bool, maxpend, P int) Scenario {
 		return runVs(rc, &VsSpec{Name: name, Body: body, Check: check, P: P})
 	}}
 }
+
+// c08ClunkRacingUse: a Tclunk (or Tremove) of a fid is written together with other
+// requests that name the same fid under tags of their own, and with a request on
+// another fid: in every schedule all of them are answered, and the connection and a
+// second one go on being served.
+func c08ClunkRacingUse(drop, use string, dotu bool, maxpend, P int) Scenario {
+	var s *sess
+	var c1 *Cli
+	var after, other *wire.Msg
+	name := fmt.Sprintf("%s of a fid written together with a %s on it maxpend=%d dotu=%v", drop, use, maxpend, dotu)
+	body := func() {
+		s = newSess(SrvOpt{Msize: 256, Dotu: dotu, Maxpend: maxpend})
+		c1 = s.h.Connect()
+		ver := "9P2000"
+		if dotu {
+			ver = "9P2000.u"
+		}
+		c1.Version(256, ver)
+		c1.Rpc(tattach(1, 0, wire.NOFID, "glenda", 7, dotu))
+		s.rpcOK(twalk(s.tag(), 0, 1, "d", "h"), wire.Rwalk)
+		var d, u *wire.Msg
+		if drop == "clunk" {
+			d = &wire.Msg{Type: wire.Tclunk, Tag: 50, Fid: 1}
+		} else {
+			d = &wire.Msg{Type: wire.Tremove, Tag: 50, Fid: 1}
+		}
+		switch use {
+		case "stat":
+			u = &wire.Msg{Type: wire.Tstat, Tag: 51, Fid: 1}
+		case "clone":
+			u = twalk(51, 1, 2)
+		case "open":
+			u = &wire.Msg{Type: wire.Topen, Tag: 51, Fid: 1, Mode: 0}
+		}
+		s.setupN = len(s.c.Collect())
+		vs.Window(true)
+		s.c.Send(dotu, u, d, &wire.Msg{Type: wire.Tstat, Tag: 52, Fid: 0})
+		vs.Idle()
+		vs.Window(false)
+		after = s.c.Rpc(&wire.Msg{Type: wire.Tstat, Tag: 60, Fid: 0})
+		other = c1.Rpc(&wire.Msg{Type: wire.Tstat, Tag: 61, Fid: 0})
+	}
+	check := stdCheck("C08", func(x *vs.Exec) *Viol {
+		frames := s.c.Frames[s.setupN:]
+		got := map[uint16]int{}
+		for _, f := range frames {
+			if f.Msg != nil {
+				got[f.Msg.Tag]++
+			}
+		}
+		detail := map[string]any{"wire": strings.Split(framesString(frames), "\n"), "parked": x.Parked}
+		for _, t := range []uint16{50, 51, 52} {
+			if got[t] != 1 {
+				return &Viol{Sig: "C08/unanswered/clunk-racing-use", Msg: fmt.Sprintf("a %s of fid 1 (tag 50), a %s on it (tag 51) and a Tstat of another fid (tag 52) were written together: tag %d got %d replies\n%s\nparked: %+v", drop, use, t, got[t], framesString(frames), x.Parked), Detail: detail}
+			}
+		}
+		if after == nil || other == nil {
+			return &Viol{Sig: "C08/server-stalled/clunk-racing-use", Msg: fmt.Sprintf("after a %s of a fid raced with a %s on it, later requests are not answered (same connection: %v, another connection: %v)\nparked: %+v", drop, use, after, other, x.Parked), Detail: detail}
+		}
+		return nil
+	}, nil)
+	return vsScenario(&VsSpec{Name: name, Body: body, Check: check, P: P})
+}
